@@ -161,6 +161,8 @@ struct Agg {
     foreign_block_runs: u64,
     futex_waits: u64,
     futex_wakes: u64,
+    same_comp_var_overlaps: u64,
+    root_exec_while_depth3: u64,
     digests: Vec<(u64, u64)>,
 }
 
@@ -258,6 +260,8 @@ fn cmd_batch(args: &[String]) {
             }
             agg.futex_waits += st.sched.futex_waits;
             agg.futex_wakes += st.sched.futex_wakes;
+            agg.same_comp_var_overlaps += st.sched.same_comp_var_overlaps;
+            agg.root_exec_while_depth3 += st.sched.root_exec_while_other_in_depth3;
             for p in &st.sched.preempt_pairs {
                 agg.preempt_pairs.insert(*p);
             }
@@ -337,6 +341,8 @@ fn cmd_batch(args: &[String]) {
         "inconclusive_foreign_block_runs": agg.foreign_block_runs,
         "simulated_futex_waits": agg.futex_waits,
         "simulated_futex_wakes": agg.futex_wakes,
+        "two_threads_in_comprehension_bodies_with_same_iteration_variable": agg.same_comp_var_overlaps,
+        "exec_on_shared_root_while_another_thread_executes_in_depth3_scope": agg.root_exec_while_depth3,
         "run_digests": agg.digests.iter().map(|(i, d)| (i.to_string(), format!("{:016x}", d))).collect::<BTreeMap<String, String>>(),
         "sample": sample,
         "violation": violation,
@@ -375,24 +381,52 @@ fn cmd_replay(args: &[String]) {
     let path = args.get(0).map(|s| s.as_str()).unwrap_or_else(|| die("replay <file>"));
     std::panic::set_hook(Box::new(|_| {}));
     let rf = load_replay(path);
-    let res = run_replay(&rf);
-    if let Some(e) = res.harness_error {
-        die(&e);
-    }
-    match res.violation {
-        Some(v) => {
-            let same = v.invariant == rf.violation.invariant && v.thread == rf.violation.thread && v.op_index == rf.violation.op_index;
-            println!("replayed: invariant={} phase={} thread={} op={} ({})", v.invariant, v.phase, v.thread, v.op_index, if same { "identical to the recorded violation" } else { "differs from the recorded violation" });
-            println!("  expected: {}", v.expected);
-            println!("  got:      {}", v.got);
-            println!("  detail:   {}", v.detail);
-            println!("VIOLATION property=C05 replay={}", path);
-            std::process::exit(1);
+    let report = |v: &ViolationInfo, how: &str| -> ! {
+        let same = v.invariant == rf.violation.invariant && v.thread == rf.violation.thread && v.op_index == rf.violation.op_index;
+        println!(
+            "replayed ({}): invariant={} phase={} thread={} op={} ({})",
+            how,
+            v.invariant,
+            v.phase,
+            v.thread,
+            v.op_index,
+            if same { "identical to the recorded violation" } else { "same class as the recorded violation" }
+        );
+        println!("  expected: {}", v.expected);
+        println!("  got:      {}", v.got);
+        println!("  detail:   {}", v.detail);
+        println!("VIOLATION property=C05 replay={}", path);
+        std::process::exit(1);
+    };
+    // 1. the recorded schedule, exactly
+    for attempt in 0..3 {
+        let res = run_replay(&rf);
+        if let Some(e) = res.harness_error {
+            die(&e);
         }
-        None => {
-            println!("replay of {} did not reproduce a violation on this tree", path);
+        if let Some(v) = res.violation {
+            report(&v, if attempt == 0 { "recorded schedule" } else { "recorded schedule, repeated attempt" });
         }
     }
+    // 2. The workload is what fails; the recorded schedule is one witness. If the tree's own
+    // nondeterminism (e.g. a RandomState map added by the change under test) makes the recorded
+    // decisions line up differently, look for another failing schedule of the same workload.
+    if rf.workload.engine == Engine::B {
+        for k in 0..300u64 {
+            let mut w = rf.workload.clone();
+            w.sched.seed = rng::mix(&[rf.workload.sched.seed, k, 0x7e91a7]);
+            if k % 3 == 1 {
+                w.sched.policy = Policy::Random { p_milli: 300 };
+            }
+            let res = run_workload(&w, &RunOptions::default());
+            if let Some(v) = res.violation {
+                if v.class() == rf.violation.class() {
+                    report(&v, "same workload, schedule re-searched");
+                }
+            }
+        }
+    }
+    println!("replay of {} did not reproduce a violation on this tree", path);
 }
 
 fn cmd_minimise(args: &[String]) {
